@@ -1,0 +1,76 @@
+//! Verification hooks. Compiled only with `--cfg noodles_verif`.
+//!
+//! A process-wide task hook that is called at the start and at the end of every block
+//! compression / decompression task of the multithreaded writer and reader, so that a test
+//! harness can delay individual tasks and force any completion order.
+
+use std::sync::{
+    Arc, RwLock,
+    atomic::{AtomicBool, AtomicU64, Ordering},
+};
+
+/// The kind of a block task.
+#[derive(Clone, Copy, Debug, Eq, PartialEq)]
+pub enum Task {
+    /// Compression of one block (multithreaded writer).
+    Deflate,
+    /// Decompression of one block (multithreaded reader).
+    Inflate,
+}
+
+/// The phase of a block task.
+#[derive(Clone, Copy, Debug, Eq, PartialEq)]
+pub enum Phase {
+    /// First statement of the task. The data is the uncompressed block (deflate) or the raw frame
+    /// (inflate).
+    Start,
+    /// After the task sent its result. The data is empty.
+    End,
+}
+
+/// A task hook: `(task, phase, token, data)`. The token pairs a start with its end.
+pub type TaskHook = Arc<dyn Fn(Task, Phase, u64, &[u8]) + Send + Sync>;
+
+static ENABLED: AtomicBool = AtomicBool::new(false);
+static NEXT_TOKEN: AtomicU64 = AtomicU64::new(0);
+static HOOK: RwLock<Option<TaskHook>> = RwLock::new(None);
+
+/// Installs or removes the process-wide task hook.
+pub fn set_task_hook(hook: Option<TaskHook>) {
+    let mut guard = HOOK.write().unwrap();
+    ENABLED.store(hook.is_some(), Ordering::SeqCst);
+    *guard = hook;
+}
+
+fn current() -> Option<TaskHook> {
+    if ENABLED.load(Ordering::Relaxed) {
+        HOOK.read().unwrap().clone()
+    } else {
+        None
+    }
+}
+
+pub(crate) struct TaskScope {
+    task: Task,
+    token: u64,
+    hook: Option<TaskHook>,
+}
+
+pub(crate) fn task_scope(task: Task, data: &[u8]) -> TaskScope {
+    let hook = current();
+    let token = NEXT_TOKEN.fetch_add(1, Ordering::Relaxed);
+
+    if let Some(f) = &hook {
+        f(task, Phase::Start, token, data);
+    }
+
+    TaskScope { task, token, hook }
+}
+
+impl Drop for TaskScope {
+    fn drop(&mut self) {
+        if let Some(f) = &self.hook {
+            f(self.task, Phase::End, self.token, &[]);
+        }
+    }
+}
